@@ -1107,6 +1107,8 @@ func TestVerifC08(t *testing.T) {
 	defer func(bs int) { maxBlockSize = bs }(maxBlockSize)
 	tw := vNewTraceWriter(os.Getenv("VERIF_TRACES"))
 	for _, s := range scns {
+		// marker for attributing a crash of the process (or a race report) to a scenario
+		fmt.Fprintf(os.Stderr, "VERIF-SCN %d\n", s.ID)
 		for _, ev := range vcfsRunScenario(*s) {
 			tw.Write(ev)
 		}
